@@ -14,7 +14,7 @@ ID = 'C16'
 PROFILES = ['debug', 'release']
 THEOREMS = ['C16_accept_within', 'C16_reject_deeper', 'C16_reject_deep_brackets', 'C16_depth_balanced',
             'C16_counter_is_budget', 'C16_no_assert']
-RULE = ('all d in 0..64 (+ 100, 250) x nesting profiles: random words over {[, <<} of length d-1, d, d+1 (and random trees of '
+RULE = ('all d in 0..64 (+ 100; 250 in the thorough tier) x nesting profiles: random words over {[, <<} of length d-1, d, d+1 (and random trees of '
         'that nesting) spelled with random whitespace/comments, each valid or with a failure injected at a random level '
         '(missing closer, bad token, end of input, duplicate key), with 0..3 levels already entered; 10^5- and 10^6-deep '
         '[[[[… / <</a<</a… / mixed / balanced inputs in a child process with a 64 MiB stack.  non-trivial = nesting within '
@@ -74,11 +74,12 @@ def cases(tier, rng):
     saved = list(G.PLUS)
     G.PLUS[:] = []          # signs are C02's business; keep C16 independent of finding C02-plus
     try:
-        for d in list(range(0, 65)) + [100, 250]:      # (the extracted model is quadratic in the nesting: 1000 levels cost ~10 s a case)
-            for k in ([0] if d == 0 else [0, 0, min(d, 1), min(d, 3)] if d <= 64 else [0, 3]):
+        for d in list(range(0, 65)) + [100] + ([250] if big else []):   # (the extracted model is quadratic in the nesting)
+            light = big or d <= 16            # the extracted model is quadratic in the nesting: fewer repetitions for large d
+            for k in ([0] if d == 0 else [0, 0, min(d, 1), min(d, 3)] if light and d <= 64 else [0, 3]):
                 b = d - k
                 for n in sorted(set(x for x in (b - 1, b, b + 1, b + 2) if x >= 1)):
-                    for _ in range(reps):
+                    for _ in range(reps if light else 1):
                         leaf = rng.random() < 0.7
                         out.append(mk(rng, d, k, profile_word(rng, n, leaf), True, simple=rng.random() < 0.5))
                         out.append(mk(rng, d, k, G.gen_deep(rng, n), True))
@@ -100,14 +101,17 @@ def cases(tier, rng):
         G.PLUS[:] = saved
     # deep inputs (the extracted model needs seconds and ~1 GB of stack for each: Model/Prim.v recomputes the length
     # of the buffer at every step) — spread evenly over the case list so that they land in different shards
-    deep = ['deep 64 0 a 1000000', 'deep 64 0 d 100000', 'deep 64 0 m 100000', 'deep 8 0 d 250000', 'deep 8 3 m 300000',
-            'deep 3 0 A 500000', 'deep 3 0 D 250000', 'deep 1 0 a 100000', 'deep 1 0 d 100000', 'deep 0 0 a 100000',
-            'deep 10 3 a 300000', 'deep 2 1 m 100000']
+    deep = ['deep 16 0 a 1000000', 'deep 64 0 a 200000', 'deep 64 0 d 30000', 'deep 64 0 m 50000', 'deep 8 0 d 100000',
+            'deep 8 3 m 200000', 'deep 3 0 A 500000', 'deep 3 0 D 100000', 'deep 1 0 a 100000', 'deep 1 0 d 100000',
+            'deep 0 0 a 100000', 'deep 10 3 a 300000', 'deep 2 1 m 100000']
     if big:
+        deep += ['deep 64 0 a 1000000', 'deep 64 0 d 100000', 'deep 64 0 m 100000', 'deep 8 0 d 250000', 'deep 3 0 D 250000',
+                 'deep 8 3 m 300000']
         for d in (2, 17, 33, 63):
             for kind in 'admAD':
                 deep.append('deep %d %d %s %d' % (d, rng.randrange(0, d), kind,
                                                   rng.choice([100000, 200000]) if kind in 'dDm' and d > 8 else rng.choice([300000, 1000000])))
+    rng.shuffle(out)                     # balance the shards: cost grows with d
     step = max(1, len(out) // (len(deep) + 1))
     for i, c in enumerate(deep):
         out.insert(min(len(out), (i + 1) * step + i), c)
@@ -175,6 +179,15 @@ def classify(case, obs):
     return '%s:%s:%s' % ('valid' if meta['v'] == '1' else 'broken', rel, obs.split(' ')[0])
 
 
-LEVEL_TEXT = ''
-LEVEL_NOTE = ''
-TECHNIQUE = ''
+LEVEL_TEXT = ('Coq theorems for every configured depth and every input: an accepted object has nesting <= the levels left '
+              '(C16_accept_within); a text that opens more containers than levels are left is rejected with a GuardError, in '
+              'particular [[[[... of any length (C16_reject_deeper, C16_reject_deep_brackets); ctxt.depth() after parse_pdf_obj equals '
+              'the depth before for EVERY outcome (C16_depth_balanced); the enter/leave counter is exactly the structural recursion '
+              'on the remaining budget, so the nesting of recursive calls is bounded by d independently of the input '
+              '(C16_counter_is_budget) and leave_obj`s assert is never what fails (C16_no_assert); acceptance of every valid spelling '
+              'within the bound is C02_spelling; tied to pdf_obj.rs by a differential run in debug and release builds incl. 10^6-deep '
+              'inputs run in a child process with a 64 MiB stack')
+LEVEL_NOTE = ('trusted: Coq kernel, hand transcriptions coq/Model/Prim.v + coq/Model/Obj.v (both the counter form that is extracted and '
+              'the budget form the theorems are about; proved equal), extraction + ocaml/drv.ml, harness/src/bin/c16.rs; '
+              '"stack proportional to d" is the shape of the recursion (structural on the budget) plus the child-process run')
+TECHNIQUE = 'Coq proof by structural induction on the depth budget + simulation counter form = budget form + differential correspondence'
